@@ -5,23 +5,25 @@ func init() {
 		ID:    "C19",
 		Title: "Result post-processing (aggregate, limit, autocut, fuse, merge) obeys its laws",
 		Harnesses: []*HarnessSpec{
-			{Name: "H_C19_limit", Tier: "quick", What: "LimitResults / sanitizeK: n<=5 entries, k any int", Covers: []string{"k-inside", "k-outside"}},
+			{Name: "H_C19_limit", Tier: "quick", What: "LimitResults / sanitizeK: n<=5 entries, with and without spare capacity behind the length, k any int", Covers: []string{"k-inside", "k-outside", "spare-capacity"}},
 			{Name: "H_C19_autocut", Tier: "quick", What: "Autocut / AutocutResults: n<=5 scores (any float32 incl. NaN/Inf), cutoff any int", Covers: []string{"disabled", "enabled"}},
 			{Name: "H_C19_agg_vector", Tier: "quick", What: "3 vector aggregations: <=4 entries over ids {1,2,3} in every duplicate pattern, non-NaN float32 scores", Covers: []string{"n>=2"}},
 			{Name: "H_C19_agg_text", Tier: "quick", What: "3 text aggregations, same shape", Covers: []string{"n>=2"}},
 			{Name: "H_C19_agg_perm", Tier: "quick", What: "order independence of the id->score map: max (<=3 occurrences), sum/mean (2 occurrences)", Covers: []string{"perm"}},
 			{Name: "H_C19_agg_nan", Tier: "quick", What: "never panics / each id once with NaN and Inf scores (3 entries)", Covers: []string{"nan-run"}},
 			{Name: "H_C19_fusion", Tier: "quick", What: "4 fusion kinds over every membership pattern of 3 ids in the two maps; weights, K>0 symbolic float64", Covers: []string{"both-nonempty", "one-empty"}},
+			{Name: "H_C19_merge_large", Tier: "quick", What: "mergeResults / sortResultsByScore on 15..21 entries (3 sources x 5..7 documents, ids repeated across sources; above 12 entries sort.Slice is no longer a stable insertion sort), two symbolic scores at varying positions: each id once, with its highest score; input untouched", Covers: []string{"ran"}},
+			{Name: "H_C19_agg_large", Tier: "quick", What: "the six aggregations on 14..21 entries (2..3 sorted per-query lists of 7 hits, identical / overlapping / disjoint id ranges), one symbolic score: each id once, the rule's value, best-first order", Covers: []string{"ran"}},
 			{Name: "H_C19_merge", Tier: "quick", What: "mergeResults / sortResultsByScore: <=4 entries over ids {1,2,3}", Covers: []string{"empty", "nonempty"}},
 		},
 		Lemmas: []string{"L_add0_comm_f32"},
-		Bounds:  []string{"lists of 0..5 entries", "scores: all float32 values incl. NaN, +-Inf, -0", "k, cutoff: all int values"},
+		Bounds:  []string{"lists of 0..5 entries with symbolic scores; 14..21 entries with one or two symbolic scores (H_C19_*_large)", "scores: all float32 values incl. NaN, +-Inf, -0", "k, cutoff: all int values"},
 		Outside: []string{"lists longer than the bound ('a few hundred entries')"},
 		Assumptions: []string{
 			"float arithmetic uninterpreted at T1 (sound over-approximation), IEEE-754 RNE bit-precise at T2 (cvc5)",
-			"sort.Slice modelled as insertion sort calling the real less closure (exact for n<=12)",
+			"sort.Slice runs the standard library's pdqsort_func (copied source) with the real less closure",
 		},
 		QuickSecs: 600,
-		LevelNote: "trusted base: go/ssa, the interp fork, SMT encodings of Go int/float ops (validated by native replay of sampled path models), insertion-sort model of sort.Slice, z3 4.8.12 and cvc5 1.0.3",
+		LevelNote: "trusted base: go/ssa, the interp fork, SMT encodings of Go int/float ops (validated by native replay of sampled path models), sort.Slice = copied pdqsort_func, z3 4.8.12 and cvc5 1.0.3",
 	})
 }
